@@ -474,16 +474,38 @@ def oracle_hybrid(sc, line, out, paths):
 
 
 # ---------------------------------------------------------------------------------- running
-def classify_crash(line, err):
+def run_h(ck, binary, script, timeout=90):
+    """ck.run_bin, retried while the shared libompl.so is being relinked by a concurrent check (loader error, rc 127)"""
+    import time
+    for attempt in range(40):
+        impl, rc, err = ck.run_bin(binary, script, timeout=timeout)
+        if rc == 127 and "shared libraries" in (err or ""):
+            time.sleep(5)
+            continue
+        return impl, rc, err
+    raise RuntimeError("libompl.so stayed unloadable for 200 s: %s" % (err or "")[:300])
+
+
+def classify_crash(line, err, ck=None, hchk=None, hdr=None):
     """name the crash site from the sanitizer report (used as the `class` key of the violation record)"""
     t = line.split()
     rnd = t[0] == "rnd"
     rt = t[3] if rnd else t[0]
-    if "heap-buffer-overflow" in err:
-        if rt == "perturb" and "selectAlongPath" in err and F(t[-1]) == 0.0:
+    import re
+    memerr = any(k in err for k in ("heap-buffer-overflow", "SEGV", "heap-use-after-free"))
+    if memerr and rt == "perturb" and "selectAlongPath" in err and F(t[-1]) == 0.0:
+        return "selectAlongPath-oob-snap0"
+    if memerr and rt == "perturb" and F(t[-1]) == 0.0 and " #1 " not in err and hchk is not None:
+        # the sanitizer died while printing its report (no stack): ask the bounds-checked build of the same sources which
+        # index went out of range; in perturbPath/selectAlongPath the only vector<double> that is indexed is `dists`
+        o2, rc2, err2 = run_h(ck, hchk, hdr + [line], timeout=60)
+        if rc2 != 0 and "Assertion" in (err2 or "") and "_Tp = double" in err2 and "size()" in err2:
             return "selectAlongPath-oob-snap0"
-        if rt == "pshort" and "partialShortcutPath" in err and F(t[7] if rnd else t[4]) == 0.0 and "PathSimplifier.cpp:3" in err:
-            return "snap0-sample-at-path-end"
+    # partialShortcutPath lines 384-386 / 396-398: t = (distTo - dists[pos]) / (dists[pos+1] - dists[pos]); interpolate(states[pos], states[pos+1], ..)
+    # (the out-of-range dists[pos+1] / states[pos+1] show up as a redzone hit, a wild pointer or a freed state)
+    if memerr and rt == "pshort" and F(t[7] if rnd else t[4]) == 0.0 and \
+            re.search(r"partialShortcutPath.*PathSimplifier\.cpp:(38[4-6]|39[6-8])\b", err):
+        return "snap0-sample-at-path-end"
     for key in ("heap-buffer-overflow", "heap-use-after-free", "SEGV", "runtime error", "Assertion", "LeakSanitizer"):
         if key in err:
             return key
@@ -498,11 +520,11 @@ def run_ops(ck, hbin, hdr, ops):
     pending = list(range(len(ops)))
     nh = len(hdr) - 1
     while pending:
-        impl, rc, err = ck.run_bin(hbin, hdr + [ops[i][1] for i in pending], timeout=90)
+        impl, rc, err = run_h(ck, hbin, hdr + [ops[i][1] for i in pending], timeout=90)
         if impl is None:
             # timeout: no partial output; run the ops one by one
             for i in pending:
-                o, rc1, err1 = ck.run_bin(hbin, hdr + [ops[i][1]], timeout=30)
+                o, rc1, err1 = run_h(ck, hbin, hdr + [ops[i][1]], timeout=30)
                 if o is None or rc1 != 0 or len(o) != nh + 1:
                     crashes.append((i, rc1, err1 or ""))
                 else:
@@ -526,7 +548,7 @@ def run_scenario(ck, hbin, hchk, sc, ops, tag, seedtag):
     """returns a list of issue dicts; counts into ck (thread-safe enough: GIL)"""
     issues = []
     hdr = ["pathops", sc.env_line(), sc.states_line("path", sc.path), sc.states_line("goals", sc.goals)]
-    impl, rc, err = ck.run_bin(hbin, hdr, timeout=60)
+    impl, rc, err = run_h(ck, hbin, hdr, timeout=60)
     if impl is None or len(impl) < 3 or not impl[0].startswith("ok") or not impl[1].startswith("ok chk="):
         return [dict(kind="oracle", routine="harness", clause="protocol", detail="header lines: %r" % (impl and impl[:3],), script=hdr, observed=impl or [])]
     if impl[1] != "ok chk=1":
@@ -535,7 +557,7 @@ def run_scenario(ck, hbin, hchk, sc, ops, tag, seedtag):
     outs, crashes = run_ops(ck, hbin, hdr, ops)
     for i, rc, err in crashes:
         routine, line = ops[i]
-        cls = classify_crash(line, err)
+        cls = classify_crash(line, err, ck, hchk, hdr)
         ck.count("crash:" + routine + ":" + cls)
         issues.append(dict(kind="oracle", routine=routine, clause="indices_in_range" if cls in ("selectAlongPath-oob-snap0", "snap0-sample-at-path-end") else "crash", cls=cls,
                            detail="the routine does not return (rc=%s): %s" % (rc, err[:700] if rc != "timeout" else "no result within 30 s"),
@@ -677,7 +699,7 @@ def run_hybrid(ck, hbin, sc, rng):
         t += [str(len(p))] + [B(x) for s in p for x in s]
     line = " ".join(t)
     script = ["pathops", sc.env_line(), line]
-    impl, rc, err = ck.run_bin(hbin, script, timeout=120)
+    impl, rc, err = run_h(ck, hbin, script, timeout=120)
     ck.count("op:hybrid")
     if rc != 0 or impl is None or len(impl) < 2:
         return [dict(kind="oracle", routine="hybrid", clause="crash", detail="rc=%s %s" % (rc, (err or "")[-400:]), script=script, observed=impl or [])]
@@ -696,7 +718,7 @@ def corpus():
     return out
 
 
-def run_corpus_script(ck, hbin, name, script):
+def run_corpus_script(ck, hbin, name, script, hchk=None):
     """corpus scripts are harness scripts (header, env, path, [goals], ops); each op line is judged like a generated one"""
     sc = Scenario()
     env = script[1].split()
@@ -723,12 +745,12 @@ def run_corpus_script(ck, hbin, name, script):
     for l in rest:
         t = l.split()
         ops.append((t[3] if t[0] == "rnd" else t[0], l))
-    return run_scenario(ck, hbin, None, sc, ops, "corpus", name)
+    return run_scenario(ck, hbin, hchk, sc, ops, "corpus", name)
 
 
 def confirm_f9(ck, hchk, issue):
     """the same script on the bounds-checked build (-D_GLIBCXX_ASSERTIONS) of the same sources must abort"""
-    impl, rc, err = ck.run_bin(hchk, issue["script"], timeout=120)
+    impl, rc, err = run_h(ck, hchk, issue["script"], timeout=120)
     return rc != 0 and "Assertion" in (err or "") and "size()" in (err or "")
 
 
@@ -819,9 +841,9 @@ def run(ck):
     hbin, hchk = build(ck)
     state = {"bad": 0, "f9_probes": 0, "f9_tree": None, "idx_confirmed": 0}
     for name, script in corpus():
-        handle(ck, run_corpus_script(ck, hbin, name, script), hchk, state)
+        handle(ck, run_corpus_script(ck, hbin, name, script, hchk), hchk, state)
         ck.count("scripts:corpus")
-    nsc = 200 if ck.tier == "quick" else 1500
+    nsc = 200 if ck.tier == "quick" else 1200
     jobs = []
     for i in range(nsc):
         r = ck.rng.fork("sc%d" % i)
@@ -865,7 +887,7 @@ def replay(ck, data):
         print("implementation (recorded):")
         print("\n".join(data.get("observed") or []))
         return 1
-    issues = run_corpus_script(ck, hbin, "replay", script)
+    issues = run_corpus_script(ck, hbin, "replay", script, hchk)
     state = {"bad": 0, "f9_probes": 0, "f9_tree": None, "idx_confirmed": 0}
     rc = 0
     for it in issues:
